@@ -3,6 +3,8 @@ import GmqttVerif.Model.Fed.Groups
 import GmqttVerif.Model.Fed.Node
 import GmqttVerif.Proofs.Fed.Route
 import GmqttVerif.Proofs.Fed.Groups
+import GmqttVerif.Model.Fed.Delivery
+import GmqttVerif.Proofs.Deliver
 /-
   C17 — Federation routing: forwarded to exactly the nodes that need it, delivered once.
 
@@ -12,9 +14,9 @@ import GmqttVerif.Proofs.Fed.Groups
   `fedrecv-retained`.  The matching relation is `Fed.subMatches` (`Model/Fed/Topic.lean`, = what `TrieDB.Iterate` with
   `MatchFilter` visits); the theorems below do not depend on what it computes.
 
-  FINDINGS: F36 (`findings/c17-shared-across-nodes.md`) — `shared_one_in_federation` is false, in both directions
-  (a group served twice; a group not served at all).  F35 (`findings/c17-remote-retained-clear.md`) — a remote retained
-  clear is stored as an empty retained message.
+  FINDING (recorded): F36 (`findings/c17-shared-across-nodes.md`) — `shared_one_in_federation` is false, in both directions
+  (a group served twice; a group not served at all).  F35 (`findings/c17-remote-retained-clear.md`, a remote retained clear was
+  stored as an empty retained message) is fixed since 5eb0806; the as-is statement is kept as `remote_retained_clear_as_is_refuted`.
 -/
 namespace GmqttVerif.Fed
 
@@ -79,7 +81,68 @@ theorem received_message_published_once (r : Recv) (src : String) (s : Sess) (id
     (r.event src { id := id, body := .msg m } ackOk).1.pubs = r.pubs ++ [m] := by
   have hset : (s.seen.set id).2 = false := by
     simp [LRU.set, hnew]
-  cases ackOk <;> cases hr : m.retained <;> simp [Recv.event, hs, Sess.see, hset, Recv.apply, Recv.setSess, hr]
+  cases ackOk <;> cases hr : m.retained <;> simp [Recv.event, hs, Sess.see, hset, Recv.apply, Recv.setSess, hr] <;>
+    split <;> rfl
+
+/-! ## 3b. end to end: a matching non-shared subscriber anywhere gets what a local subscriber would -/
+
+open GmqttVerif.Deliver in
+/-- Composition of the routing decision, the event stream (C16: a queued event is applied by the peer exactly once) and the
+    receiver's `Publisher.Publish` (= `Deliver.deliver` with source `""`, C01): in a federation without shared subscriptions,
+    for a non-retained message with a non-empty topic published on `origin`,
+    * the origin delivers locally exactly as it would alone (no drop, iteration options untouched),
+    * every client of every OTHER node receives exactly the copies a publish of the same message on its own node would give it
+      (C01 `deliver_overlap_exact` / `deliver_onlyonce_exact` then say which: one per wanted subscription at min QoS, …) —
+      in particular nothing on nodes without a matching subscription, which are not even sent the message,
+    * no node is sent the message twice. -/
+theorem federation_delivery_exact (onlyOnce : Bool) (origin : BNode) (others : List BNode) (sent : List (String × Nat))
+    (m : Deliver.Msg) (pick : String → List (String × Sub) → Option (String × Sub))
+    (hpick : ∀ g ms x, pick g ms = some x → x ∈ ms)
+    (hnames : ((origin :: others).map (·.name)).Nodup)
+    (hnoshared : ∀ n ∈ origin :: others, ∀ cs ∈ n.table, cs.2.share = "")
+    (htopic : m.topic ≠ "") (hnr : m.retained = false) :
+    -- the origin's own delivery is the one it would do without a federation
+    (route (originRouteIn origin others sent) m.topic m.retained).drop = false ∧
+    (route (originRouteIn origin others sent) m.topic m.retained).nonSharedOnly = false ∧
+    -- every client of every other node gets exactly what a local publish of `m` on that node would give it
+    (∀ n ∈ others, ∀ c, copiesFor c (remoteEnqueues onlyOnce origin others sent m pick n) =
+        copiesFor c (deliver onlyOnce "" n.table m pick).2) ∧
+    -- and the message is queued for a node at most once
+    (route (originRouteIn origin others sent) m.topic m.retained).targets.Nodup := by
+  simp only [List.map_cons, List.nodup_cons] at hnames
+  have hf : ∀ k ∈ (originRouteIn origin others sent).fedSubs, k.share = "" := by
+    intro k hk
+    simp only [originRouteIn, announced, List.mem_flatMap, List.mem_map] at hk
+    obtain ⟨n, hn, cs, hcs, rfl⟩ := hk
+    exact hnoshared n (List.mem_cons_of_mem _ hn) cs hcs
+  have hl : ∀ l ∈ (originRouteIn origin others sent).locals, l.share = "" := by
+    intro l hl
+    simp only [originRouteIn, List.mem_map] at hl
+    obtain ⟨cs, hcs, rfl⟩ := hl
+    exact hnoshared origin (List.mem_cons_self ..) cs hcs
+  have hr := route_nonretained_exact (originRouteIn origin others sent) m.topic hf hl hnames.1
+  rw [hnr]
+  refine ⟨hr.2.2.2.1, hr.2.2.2.2.1, ?_, hr.1⟩
+  intro n hn c
+  unfold remoteEnqueues
+  by_cases ht : (route (originRouteIn origin others sent) m.topic false).targets.contains n.name = true
+  · rw [if_pos ht]
+  · rw [if_neg ht]
+    -- not a target: no subscription of the node matches, so its own delivery produces nothing either
+    have hnt : n.name ∉ (route (originRouteIn origin others sent) m.topic false).targets := by
+      simpa using ht
+    have hnone : ∀ cs ∈ n.table, ¬ Deliver.subMatches cs.2 m.topic = true := by
+      intro cs hcs hm
+      apply hnt
+      rw [hr.2.1]
+      refine ⟨List.mem_map_of_mem hn, { node := n.name, share := cs.2.share, filter := cs.2.filter }, ?_, rfl, ?_⟩
+      · simp only [originRouteIn, announced, List.mem_flatMap, List.mem_map]
+        exact ⟨n, hn, cs, hcs, rfl⟩
+      · rw [subMatches_eq_MatchesTopic _ _ _ htopic]
+        exact hm
+    have := Deliver.nothing_unmatched onlyOnce "" n.table m pick hpick c (fun cs hcs _ h => hnone cs hcs h.1)
+    rw [this]
+    simp [copiesFor]
 
 /-! ## 4. share groups spanning nodes (F36) -/
 
@@ -122,32 +185,38 @@ theorem shared_one_in_federation_partial {ν γ : Type} [DecidableEq ν] [Decida
     servedBy sort origin others sent g = 1 :=
   servedBy_single sort hsort origin others sent g hnames hsingle.1 hsingle.2 hnons hmem
 
-/-! ## 5. retained messages on the receiving node (F35) -/
+/-! ## 5. retained messages on the receiving node -/
 
-/-- FULL-STRENGTH statement: a received retained message with EMPTY payload clears the retained message of its topic, as
-    it does on the node where it was published (`retainedDB.Remove`, server/client.go). -/
-def RemoteRetainedClearStatement : Prop :=
-  ∀ (r : Recv) (src : String) (m : Msg), m.retained = true → m.payload = 0 →
-    ∀ p ∈ (r.apply src (.msg m)).retained, p.1 ≠ m.topic
+/-- A received retained message with EMPTY payload clears the retained message of its topic, as it does on the node where it was
+    published (`retainedDB.Remove`, server/client.go), and leaves the other topics alone. -/
+theorem remote_retained_clear (r : Recv) (src : String) (m : Msg) (hr : m.retained = true) (hp : m.payload = 0) :
+    (∀ p ∈ (r.apply src (.msg m)).retained, p.1 ≠ m.topic) ∧
+    (∀ p, p.1 ≠ m.topic → (p ∈ (r.apply src (.msg m)).retained ↔ p ∈ r.retained)) := by
+  simp only [Recv.apply, hr, hp, if_true, beq_self_eq_true]
+  constructor
+  · intro p hp'; simp at hp'; exact hp'.2
+  · intro p hpt; simp [hpt]
 
-/-- The code stores the empty message instead (`AddOrReplace` for every retained message). -/
-theorem remote_retained_clear_refuted : ¬ RemoteRetainedClearStatement := by
+/-- The code before 5eb0806 stored the empty message instead (`AddOrReplace` for every retained message; F35). -/
+theorem remote_retained_clear_as_is_refuted :
+    ¬ (∀ (r : Recv) (m : Msg), m.retained = true → m.payload = 0 → ∀ p ∈ r.retainedAsIs m, p.1 ≠ m.topic) := by
   intro h
-  have := h (Recv.new "A") "B" { topic := "t", retained := true, payload := 0, qos := 0 } rfl rfl
-    ("t", { topic := "t", retained := true, payload := 0, qos := 0 }) (by simp [Recv.apply, Recv.new])
+  have := h (Recv.new "A") { topic := "t", retained := true, payload := 0, qos := 0 } rfl rfl
+    ("t", { topic := "t", retained := true, payload := 0, qos := 0 }) (by simp [Recv.retainedAsIs, Recv.new])
   exact this rfl
 
 /-- A received retained message with payload replaces the stored message of its topic (last value wins) and leaves the
     other topics alone; a non-retained one leaves the store alone. -/
 theorem remote_retained_set (r : Recv) (src : String) (m : Msg) :
-    (m.retained = true →
+    (m.retained = true → m.payload ≠ 0 →
       (m.topic, m) ∈ (r.apply src (.msg m)).retained ∧
       (∀ p ∈ (r.apply src (.msg m)).retained, p.1 = m.topic → p = (m.topic, m)) ∧
       (∀ p, p.1 ≠ m.topic → (p ∈ (r.apply src (.msg m)).retained ↔ p ∈ r.retained))) ∧
     (m.retained = false → (r.apply src (.msg m)).retained = r.retained) := by
   constructor
-  · intro hr
-    simp only [Recv.apply, hr, if_true]
+  · intro hr hp
+    have hp' : (m.payload == 0) = false := by simpa using hp
+    simp only [Recv.apply, hr, hp', if_true, Bool.false_eq_true, if_false]
     refine ⟨by simp, ?_, ?_⟩
     · intro p hp hpt
       simp at hp
